@@ -116,6 +116,33 @@ def run(ctx, rep, tier):
                     a = "%s %s -true" % (kw, v)
                     b_ = "%s %s%s%s -true" % (kw, "'" if j == 1 else '"', v, "'" if j == 1 else '"')
                     report(B, rep, "quoting", a, b_)
+    # a quoted argument carries EVERY character except its own quote character (blanks, parentheses, the other quote ...): the tree
+    # holds exactly the text between the quotes
+    from spec import vocab as V_
+    from mirsym.stdmodel import struct_eq as seq_
+    true_leaf = Adt("Expression", "Test", [Adt("Test", "True")])
+    for kw in ("-name", "-fprint", "-pool"):
+        for k in range(1, klen + 1):
+            for style, qch in (("single", "'"), ("double", '"')):
+                cs = [sym_char() for _ in range(k)]
+                asm = [c != ord(qch) for c in cs]
+                r = B.parse([kw + " " + qch] + cs + [qch + " -true"], extra_assume=asm)
+                want = Adt("Expression", "Operator", [BoxV(Adt("Operator", "And", [V_.node_for(kw, [StringV(cs)]), true_leaf]), "Rc")])
+                good = False
+                st_ = St()
+                for g, v in r.alts:
+                    if is_ok(v):
+                        good = b_or(good, b_and(g, seq_(r.I, v.fields[0][1], want, st_)))
+                res, m = B.solve("quoted-value:%s:k%d:%s" % (kw, k, style), r.assume, b_not(good))
+                if res == z3.sat:
+                    v = "".join(chr(model_char(m, c)) for c in cs)
+                    text = "%s %s%s%s -true" % (kw, qch, v, qch)
+                    d = B.ctx.run_native([text], "debug")[0]
+                    if d.get("parse") == "ok" and ("(%s)" % json_like(v)) in (d.get("tree") or "").replace("\n", ""):
+                        rep.inconclusive.append("quoted-value witness %r does not reproduce natively" % text)
+                    else:
+                        rep.violation("spelling:quoting", "%r: the %s-quoted argument %r is not carried as it stands: %s" % (text, style, v, (d.get("tree") or d.get("err") or d.get("parse"))[:160]),
+                                      dict(a=text, b=text, native_a=d, native_b=d))
     samples.append(dict(kind="quoting styles", keywords=["-name", "-fprint", "-pool"], value_len=list(range(1, klen + 1))))
     # ------------------------------------------------------------- (iii) operator spellings, (iv) parentheses
     # slots padded with blanks so that positions stay concrete while the spelling is selected symbolically
@@ -215,6 +242,25 @@ def run(ctx, rep, tier):
                evaluations=len(rep.queries), distinct_nontrivial=len(rep.queries))
     rep.coverage = cov
     rep.assumptions = ["error results are compared as 'both fail' (messages quote the spelling)"]
+
+
+def json_like(v):
+    """Rust's Debug rendering of a string"""
+    out = '"'
+    for ch in v:
+        if ch in '"\\':
+            out += "\\" + ch
+        elif ch == "\n":
+            out += "\\n"
+        elif ch == "\t":
+            out += "\\t"
+        elif ch == "\r":
+            out += "\\r"
+        elif ch == "'":
+            out += "'"
+        else:
+            out += ch
+    return out + '"'
 
 
 def native_pair(B, a, b):
